@@ -55,7 +55,9 @@ def scan_tree_twice(ctx, fs):
     may differ only in uuid, timestamp and the order of files, and every file's entry must be the
     analysis of that file alone (= the model's result for its language and content). The tree has
     an order-sensitive exclusion list (a negated gitignore pattern) and byte-identical files of
-    different languages, so that neither set-iteration order nor sharing between files goes unnoticed."""
+    different languages, so that neither set-iteration order nor sharing between files goes unnoticed;
+    every run but the first also walks the directories in a different (seed-determined) order
+    (harness/c06_scan.py wraps os.walk in the scanning interpreter)."""
     root = tempfile.mkdtemp(prefix="c06_")
     try:
         placed = {}
@@ -70,19 +72,39 @@ def scan_tree_twice(ctx, fs):
         placed[os.path.join("twins", "same.ts")] = ("TypeScript", js)
         placed[os.path.join("gen", "keep.py")] = ("Python", "def keep():\n    return 1\n")
         placed[os.path.join("gen", "drop.py")] = ("Python", "def drop():\n    return 2\n")
+        # files whose language follows from the FULL name (no extension) next to extension-less files
+        # that are no source files, and a file that is not valid UTF-8 next to a UTF-8 file with
+        # non-ASCII identifiers: a per-extension lexer cache or a sticky decoding fallback (seeded
+        # changes C06-3, C06-4) makes the result depend on which of them is visited first
+        build = "def rule(name):\n    x = name\n    return x\n"
+        placed[os.path.join("tools", "BUILD")] = ("Python", build)
+        placed[os.path.join("tools", "SConstruct")] = ("Python", build)
+        placed[os.path.join("enc", "unicode.py")] = ("Python", "def gr\u00f6\u00dfe(werte):\n    s = '\u00e9\u00e8'\n    return werte\n")
+        raw = {os.path.join("enc", "legacy.py"): b"# caf\xe9 \xff\ndef alt(a):\n    return a\n",
+               os.path.join("enc2", "legacy2.c"): b"int alt2(int a) {\n  return a; /* \xe9\xff */\n}\n"}
+        placed[os.path.join("enc", "legacy.py")] = ("Python", raw[os.path.join("enc", "legacy.py")].decode("latin-1"))
+        placed[os.path.join("enc2", "legacy2.c")] = ("C", raw[os.path.join("enc2", "legacy2.c")].decode("latin-1"))
+        placed[os.path.join("enc2", "unicode2.c")] = ("C", "int \u00fcber(int a) {\n  return a;\n}\n")
+        others = {os.path.join("tools", "LICENSE"): "Permission is hereby granted (free)\n", os.path.join("tools", "Makefile"): "all:\n\techo def f\n",
+                  os.path.join("tools", "README"): "def not_code(): pass\n", "LICENSE": "text\n"}
         for rel, (lang, code) in placed.items():
             os.makedirs(os.path.join(root, os.path.dirname(rel)), exist_ok=True)
-            with open(os.path.join(root, rel), "w", encoding="utf-8", newline="") as f:
-                f.write(code)
+            with open(os.path.join(root, rel), "wb") as f:
+                f.write(raw[rel] if rel in raw else code.encode("utf-8"))
+        for rel, text in others.items():
+            os.makedirs(os.path.join(root, os.path.dirname(rel)) if os.path.dirname(rel) else root, exist_ok=True)
+            with open(os.path.join(root, rel), "w") as f:
+                f.write(text)
         with open(os.path.join(root, ".gitignore"), "w") as f:
             f.write("gen/*\n!gen/keep.py\n*.tmp\n")
         expected_files = sorted(r for r in placed if r != os.path.join("gen", "drop.py"))
         docs = []
         seeds = ctx.pick([1, 5, 12, 77], list(range(1, 25)))
-        for seed in seeds:
+        for k, seed in enumerate(seeds):
             shutil.rmtree(os.path.join(root, ".codelimit_cache"), ignore_errors=True)
-            env = dict(os.environ, PYTHONHASHSEED=str(seed), PYTHONPATH=common.REPO, COLUMNS="200")
-            p = subprocess.run([sys.executable, "-m", "codelimit", "scan", root], capture_output=True, text=True, env=env, timeout=300, cwd=root)
+            # the first run walks in the file system's order, the others in seed-determined orders
+            env = dict(os.environ, PYTHONHASHSEED=str(seed), PYTHONPATH=common.REPO, COLUMNS="200", C06_WALK_SEED=str(0 if k == 0 else seed))
+            p = subprocess.run([sys.executable, os.path.join(common.VERIF, "harness", "c06_scan.py"), "scan", root], capture_output=True, text=True, env=env, timeout=300, cwd=root)
             if p.returncode != 0:
                 return "scan exited with %s: %s" % (p.returncode, (p.stdout + p.stderr)[-300:])
             d = json.load(open(os.path.join(root, ".codelimit_cache", "codelimit.json")))
@@ -98,7 +120,7 @@ def scan_tree_twice(ctx, fs):
         for seed, d in zip(seeds[1:], docs[1:]):
             if canon(d) != first:
                 a_, b_ = set(first["files"]), set(canon(d)["files"])
-                return "scans of the same tree under PYTHONHASHSEED=%s and %s differ beyond uuid/timestamp/file order (files only in one: %s)" % (seeds[0], seed, sorted(a_ ^ b_)[:4])
+                return "scans of the same tree under PYTHONHASHSEED=%s (file-system walk order) and %s (walk order seed %s) differ beyond uuid/timestamp/file order (files only in one: %s)" % (seeds[0], seed, seed, sorted(a_ ^ b_)[:4])
         if sorted(first["files"]) != expected_files:
             return "scanned files %s, expected %s" % (sorted(first["files"])[:6], expected_files[:6])
         # every entry is the analysis of that file alone
